@@ -60,7 +60,7 @@ CAST_TABLE = {
         "pass sizes/positions, never evaluator operands; recorded observation, not part of is/2",
 }
 UNCHECKED_BUILDERS = {
-    "arithmetic::rnd_i": "after (Fixnum::MIN..=Fixnum::MAX).contains(&f)",
+    "arithmetic::rnd_i": "after (Fixnum::MIN as f64 .. Fixnum::MAX as f64).contains(&f), upper bound exclusive (checked by C01:rnd_i:float-range-excludes-2^55)",
     "parser::ast::Fixnum::build_with": "argument type is sealed FitsInFixnum",
     "parser::ast::Fixnum::build_with_checked": "after try_into_i56 succeeded",
     "<parser::ast::Fixnum as std::ops::Neg>::neg": "wraps at MIN; no evaluator caller (checked)",
@@ -194,6 +194,56 @@ def run(ctx, R):
     for top in sorted(builders):
         R.ob("C01:unchecked-fixnum:%s" % short(top), top in UNCHECKED_BUILDERS,
              UNCHECKED_BUILDERS.get(top, "Fixnum::build_with_unchecked called from the evaluator without a recorded range argument"), F.where(top))
+    # rnd_i's range argument: the bounds are the fixnum limits converted to f64, and `Fixnum::MAX as f64` rounds UP to
+    # 2^55 (2^55-1 needs 55 mantissa bits) — the test must therefore exclude its upper bound
+    rn = F.find("arithmetic::rnd_i")
+    rh = F.hir(rn)
+    guards = []
+    for ifn in walk(rh["body"]):
+        if ifn["k"] == "If" and any(x["k"] in ("Call", "MethodCall") and re.search(r"build_with_unchecked$", x.get("resolved") or x.get("callee") or "") for x in walk(ifn["then"])):
+            for c in walk(ifn["cond"]):
+                if c["k"] == "MethodCall" and c["name"] == "contains":
+                    guards.append(c["recv"].get("ty") or c["recv"].get("adj_ty") or "")
+    if len(guards) != 1:
+        raise AnchorLost("arithmetic::rnd_i: range test guarding build_with_unchecked (found %d)" % len(guards))
+    R.ob("C01:rnd_i:float-range-excludes-2^55", "RangeInclusive" not in guards[0] and "Range<" in guards[0],
+         "rnd_i guards the unchecked small-integer build with %s over (Fixnum::MIN as f64, Fixnum::MAX as f64): the upper bound converts to 2^55, which is "
+         "outside the 56-bit range, so the range must be half-open (`..`), not inclusive (`..=`): X is floor(36028797018963968.0) builds 2^55 as a small integer" % guards[0],
+         F.where(rn))
+    # `>>` of the big-integer library rounds a negative operand towards zero in some cases (shift past its low zero
+    # words): every big-integer right shift in the evaluator must sit under a sign test (the negative branch shifts the
+    # complement, which is non-negative)
+    n_shr = 0
+    for p in S:
+        if F.items[p]["kind"] not in ("Fn", "AssocFn"):
+            continue
+        ph = F.hir(p)
+
+        def rec(n, under_sign_test):
+            nonlocal n_shr
+            if isinstance(n, list):
+                for x in n:
+                    rec(x, under_sign_test)
+                return
+            if not isinstance(n, dict):
+                return
+            if n.get("k") == "If":
+                tests_sign = any(x["k"] == "MethodCall" and x["name"] in ("is_negative", "is_positive", "sign", "signum") for x in walk(n["cond"]))
+                rec(n["cond"], under_sign_test)
+                rec(n["then"], under_sign_test or tests_sign)
+                if n.get("else"):
+                    rec(n["else"], under_sign_test or tests_sign)
+                return
+            if n.get("k") == "Binary" and n.get("op") == "Shr" and re.search(r"Shr<usize> for &?dashu::integer::IBig>::shr$", n.get("resolved") or n.get("callee") or ""):
+                n_shr += 1
+                R.ob("C01:bigint-shr:under-sign-test:%s@%d" % (short(p), n["ln"] - F.items[p]["line"]), under_sign_test,
+                     "%s shifts a big integer right with the library's `>>` outside any sign test: for a negative operand whose low words are zero it rounds "
+                     "towards zero (X is -(2^64) >> 65 gives 0, the flooring shift gives -1)" % short(p), F.where(p))
+            for k, v in n.items():
+                if k != "mac" and isinstance(v, (dict, list)):
+                    rec(v, under_sign_test)
+        rec(ph["body"], False)
+    R.floor("big-integer right shifts in the evaluator", n_shr, 1)
     # impl Neg for Fixnum has no caller inside the evaluator scope
     negf = F.find_impl("Fixnum", "std::ops::Neg", "neg")
     callers = [p for p in S if any((c.get("resolved") or c.get("callee")) == negf for c in F.calls.get(p, []))]
